@@ -6,7 +6,7 @@ PROP = {'counts': {'quick': 2, 'thorough': 20},
  'rule': 'one case = one dynamic probe: a real primary (engine + replication.Manager, heartbeat interval/timeout '
          'shortened through PrimaryConfig.HeartbeatConfig), real healthy replicas, and one misbehaving raw gRPC '
          'client of the replication service (never reads its stream / reads but never acknowledges / reads '
-         'slowly / connection reset through a TCP forwarder / connection frozen through the forwarder / none: '
+         'slowly / rotated log with one lagging and two continuously acknowledging replicas / connection reset through a TCP forwarder / connection frozen through the forwarder / none: '
          'continuous writer against healthy replicas only); 320+ Put of 16 KB (more than the HTTP/2 flow-control '
          'windows), Get and two-key transactions, each under a 5 s watchdog; when an operation does not return '
          'the goroutine stacks are captured and the call chain of the blocked operation is checked by the '
